@@ -24,7 +24,7 @@ for l in lines:
     if l and not l.startswith("#"): caseof.append(cur)
 badcases = set()
 for i, (a, b) in enumerate(zip(impl, m)):
-    if a != b:
+    if a != b and not b.endswith(' => skip'):
         if caseof[i] in badcases: continue
         badcases.add(caseof[i])
         op = " ".join(a.split(" => ")[0].split()[:2]); c[op] += 1
